@@ -52,8 +52,14 @@ def shards(tier, seed):
 
 
 def known_key(formulation, exc_text=""):
-    if formulation == "flux_reduced":
-        return "C08:flux_reduced_formulation_unusable"
+    return None
+
+
+def multilevel_key(formulation, backend, num_cells):
+    """Mechanism of the recorded finding: iterative back-end on the indefinite flux-reduced
+    saddle-point system once pyamg builds a genuine hierarchy (size > max_coarse = 100)."""
+    if formulation == "flux_reduced" and backend in ("amg", "cg") and num_cells + 1 > 100:
+        return "C08:flux_reduced_iterative_backend_diverges_multilevel"
     return None
 
 
@@ -83,6 +89,7 @@ def run_shard(spec, R):
             rng = rng_for(spec["seed"], "C08", 1000 + spec["shard"], 100 * spec["shapes"].index(list(shape)) + ci)
             case = {"shape": list(shape), "voxel_size": h, "formulation": formulation, "backend": backend}
             key = known_key(formulation)
+            mkey = multilevel_key(formulation, backend, nc)
             opt = wass.make_options(darsia, "newton", "RAVIART_THOMAS", "CELL_BASED", formulation, backend, 0, 4)
             ok, w1 = R.guarded("formulation_usable", lambda: darsia.WassersteinDistanceNewton(grid, None, opt), key=lambda e, w: key)
             if not ok:
@@ -138,11 +145,11 @@ def run_shard(spec, R):
                         det[name] = err / scale
                         if err > tol * scale:
                             good = False
-                R.check(good, "solves_same_system", lambda: {**case, "step": label, "relative_errors": det}, group=f"{formulation}/{backend}")
+                R.check(good, "solves_same_system", lambda: {**case, "step": label, "relative_errors": det}, key=mkey, group=f"{formulation}/{backend}")
                 res = float(np.linalg.norm(A @ sol - rhs)) if sol.shape == ref.shape else float("inf")
                 R.check(res <= tol * max(float(np.linalg.norm(rhs)), 1e-300) * max(1.0, float(np.linalg.cond(A)) * 1e-3 if backend != "direct" else 1.0),
-                        "satisfies_full_system", lambda: {**case, "step": label, "residual": res, "rhs_norm": float(np.linalg.norm(rhs))}, group=f"{formulation}/{backend}")
-                R.check(abs(sol[nf + pinned]) <= tol * max(float(np.max(np.abs(ref[nf:nf + nc]))), 1e-300), "pressure_pinned", {**case, "step": label, "p": float(sol[nf + pinned])})
+                        "satisfies_full_system", lambda: {**case, "step": label, "residual": res, "rhs_norm": float(np.linalg.norm(rhs))}, key=mkey, group=f"{formulation}/{backend}")
+                R.check(abs(sol[nf + pinned]) <= tol * max(float(np.max(np.abs(ref[nf:nf + nc]))), 1e-300), "pressure_pinned", {**case, "step": label, "p": float(sol[nf + pinned])}, key=mkey)
                 R.sig([list(shape), formulation, backend, label], nontrivial=nf > 0, cls=f"{dim}d/{formulation}/{backend}")
             if usable:
                 R.ok("formulation_usable")
@@ -163,7 +170,8 @@ def run_shard(spec, R):
             for (formulation, backend), d in dists.items():
                 tol = 1e-9 if backend == "direct" else 1e-6
                 R.check(abs(d - ref_d) <= tol * max(abs(ref_d), 1e-300), "end_to_end_same_distance",
-                        {"shape": list(shape), "formulation": formulation, "backend": backend, "distance": d, "full_direct": ref_d})
+                        {"shape": list(shape), "formulation": formulation, "backend": backend, "distance": d, "full_direct": ref_d},
+                        key=multilevel_key(formulation, backend, nc))
         if spec["shapes"].index(list(shape)) < 1:
             R.sample({"shape": list(shape), "voxel_size": h, "combos": [list(c) for c in COMBOS], "distances": {f"{k[0]}/{k[1]}": v for k, v in dists.items()}})
 
